@@ -242,17 +242,6 @@ func (f *RunningEventFilter) onReorg(writer db.KeyValueWriter) error {
 	curBlock := f.next - 1
 	// Falls into previous filter's range
 	if curBlock == currRangeStart-1 {
-		// Drop the persisted filter; in-memory clears are about to be discarded
-		// on swap and a future rollover will repopulate this window.
-		if err := DeleteAggregatedBloomFilter(
-			writer, f.inner.FromBlock(), f.inner.ToBlock(),
-		); err != nil {
-			return fmt.Errorf(
-				"deleting stale persisted filter for window [%d,%d]: %w",
-				f.inner.FromBlock(), f.inner.ToBlock(), err,
-			)
-		}
-
 		rangeStartAligned := curBlock - (curBlock % NumBlocksPerFilter)
 		rangeEndAligned := rangeStartAligned + MaxBlockOffsetPerFilter
 
@@ -263,6 +252,18 @@ func (f *RunningEventFilter) onReorg(writer db.KeyValueWriter) error {
 		)
 		if err != nil {
 			return err
+		}
+
+		// Drop the persisted copy of the window we are re-entering: it describes blocks that
+		// are being reverted, and a future rollover will persist this window again. (The
+		// running window we leave is empty and was never persisted.)
+		if err := DeleteAggregatedBloomFilter(
+			writer, rangeStartAligned, rangeEndAligned,
+		); err != nil {
+			return fmt.Errorf(
+				"deleting stale persisted filter for window [%d,%d]: %w",
+				rangeStartAligned, rangeEndAligned, err,
+			)
 		}
 		f.inner = &lastStoredFilter
 	}
